@@ -438,16 +438,26 @@ func newSpannerProber(ctx context.Context, opt ProberOptions, clientOpts ...opti
 	return p, nil
 }
 
+// backoff returns baseDelay grown by a factor of 1.5 per retry and capped at
+// maxDelay. For baseDelay <= maxDelay the result lies in [baseDelay, maxDelay]
+// and does not decrease when retries grows.
 func backoff(baseDelay, maxDelay time.Duration, retries int) time.Duration {
 	backoff, max := float64(baseDelay), float64(maxDelay)
-	for backoff < max && retries > 0 {
+	// Only a positive delay grows when multiplied (and the loop would otherwise
+	// spin `retries` times on a zero delay).
+	for backoff > 0 && backoff < max && retries > 0 {
 		backoff = backoff * 1.5
 		retries--
 	}
-	if backoff > max {
-		backoff = max
+	if backoff >= max {
+		// Return the cap itself: float64(maxDelay) may have been rounded.
+		return maxDelay
 	}
-	return time.Duration(backoff)
+	// float64 cannot represent every int64 above 2^53: never go below the base.
+	if d := time.Duration(backoff); d > baseDelay {
+		return d
+	}
+	return baseDelay
 }
 
 // createCloudSpannerInstanceIfMissing creates a one node "Instance" of Cloud Spanner in the specificed project if missing.
